@@ -356,7 +356,7 @@ func runCheck(opt vexec.Options, prop string, seed int64, verif string) int {
 	}
 	crossCompared, crossDisagree, crossSkipped := 0, 0, 0
 	known := loadKnown(verif)
-	replayDir := filepath.Join(verif, "replays", prop)
+	replayDir := filepath.Join(outDir(verif), "replays", prop)
 	os.RemoveAll(replayDir)
 
 	broken := []string{}
@@ -599,6 +599,11 @@ func runCheck(opt vexec.Options, prop string, seed int64, verif string) int {
 			fenc = append(fenc, map[string]interface{}{"fn": f.K, "instructions": f.V})
 		}
 	}
+	if fd := os.Getenv("VSYM_FNDUMP"); fd != "" {
+		// complete list of executed functions (coverage-gap analysis; not evidence)
+		fb, _ := json.Marshal(funcs)
+		os.WriteFile(fd, fb, 0o644)
+	}
 	if len(samples) == 0 {
 		for _, r := range results {
 			samples = append(samples, map[string]interface{}{"harness": r.Name, "paths": r.Paths, "note": "no satisfiable sample captured"})
@@ -645,9 +650,9 @@ func runCheck(opt vexec.Options, prop string, seed int64, verif string) int {
 		"wall_s":      time.Since(t0).Seconds(),
 		"violations":  violations,
 	}
-	os.MkdirAll(filepath.Join(verif, "evidence"), 0o755)
+	os.MkdirAll(filepath.Join(outDir(verif), "evidence"), 0o755)
 	b, _ := json.MarshalIndent(ev, "", " ")
-	os.WriteFile(filepath.Join(verif, "evidence", prop+".json"), b, 0o644)
+	os.WriteFile(filepath.Join(outDir(verif), "evidence", prop+".json"), b, 0o644)
 
 	for _, s := range inconclusive {
 		fmt.Println("INCONCLUSIVE:", s)
@@ -744,9 +749,19 @@ func writeBrokenEvidence(verif, prop, tier string, seed int64, msg string, wall 
 		"coverage": map[string]interface{}{"explanation": "harness did not build against this tree: " + firstLine(msg), "evaluations": 0},
 		"wall_s":   wall, "violations": 0,
 	}
-	os.MkdirAll(filepath.Join(verif, "evidence"), 0o755)
+	os.MkdirAll(filepath.Join(outDir(verif), "evidence"), 0o755)
 	b, _ := json.MarshalIndent(ev, "", " ")
-	os.WriteFile(filepath.Join(verif, "evidence", prop+".json"), b, 0o644)
+	os.WriteFile(filepath.Join(outDir(verif), "evidence", prop+".json"), b, 0o644)
+}
+
+// outDir: where evidence and replay files go. VERIF_OUT redirects them (used
+// when a check is run against a scratch copy of the repository, e.g. with a
+// seeded change applied, so that /verif/evidence keeps describing /repo).
+func outDir(verif string) string {
+	if d := os.Getenv("VERIF_OUT"); d != "" {
+		return d
+	}
+	return verif
 }
 
 func runReplay(opt vexec.Options, path string, verif string) int {
